@@ -145,6 +145,9 @@ def run_property(prop, scenarios, tier, seed, extra_assumptions=()):
             for (ck, t), (cfg, run, v) in verdicts.items():
                 for ln, clause in v['viol']:
                     p = eng.CLAUSE_PROPERTY.get(clause, '?')
+                    if p == '?' and ('unattributed clause ' + clause) not in rep.machinery:
+                        # a clause of the trace specification that no property claims would be ignored silently
+                        rep.machinery.append('unattributed clause ' + clause)
                     clause_counts[clause] = clause_counts.get(clause, 0) + 1
                     if p != prop:
                         foreign[clause] = foreign.get(clause, 0) + 1
